@@ -21,6 +21,7 @@ pub fn install_panic_hook() {
         } else {
             "<non-string panic>".to_string()
         };
+        eprintln!("[panic] {} {}", loc, msg);
         if let Ok(mut g) = LAST_PANIC.lock() {
             *g = Some((loc, msg));
         }
